@@ -205,6 +205,20 @@ def sSwizzle (order : List RId) (m : Meta) : Meta :=
     fmts := order.map (fun r => m.getFmt r)
     mutable := m.mutable }
 
+/-- the loop that ends `swizzleRanks` ("For each fiber, reset its active range", tensor.py): a rebuilt
+    non-empty fiber of rank X gets `(min of the starts of the operand's rank-X ranges that contain
+    its first coordinate, max of the ends of those that contain its last coordinate)`;
+    `none` is the `ValueError` of `min([])` / `max([])` -/
+def swizReset (ranges : List (Int × Int)) (coords : List Int) : Option (Int × Int) :=
+  match coords.head?, coords.getLast? with
+  | some c0, some c1 =>
+    let starts := (ranges.filter (fun r => decide (r.1 ≤ c0) && decide (c0 < r.2))).map (·.1)
+    let ends := (ranges.filter (fun r => decide (r.1 ≤ c1) && decide (c1 < r.2))).map (·.2)
+    match starts, ends with
+    | s :: ss, e :: es => some (ss.foldl min s, es.foldl max e)
+    | _, _ => none
+  | _, _ => none
+
 /-! ### swap -/
 
 def swapAt {α : Type} (k : Nat) (l : List α) : List α :=
